@@ -768,7 +768,7 @@ impl<'a> Interp<'a> {
                     if !free.is_empty() {
                         self.fail(
                             "resident_uncharged",
-                            P_C01,
+                            &["C01", "C16"],
                             format!("{}: quiescent, entries {:?} are resident but not charged: their cost is not counted against max_cost {}", what, free, snap.max_cost),
                         );
                     }
